@@ -229,7 +229,7 @@ def e2e_cases(ctx, rng, count):
     names = live_templates()
     out = []
     for i in range(count):
-        stream = ["bbb", "tears", "syn1", "syn2", "syn3", "syn4", "syn5", "syn6", "syn7", "syn8", "syn9", "synbig", "syn10", "bbbd", "synodd"][i % 15]
+        stream = ["bbb", "tears", "syn1", "syn2", "syn3", "syn4", "syn5", "syn6", "syn7", "syn8", "syn9", "synbig", "syn10", "bbbd", "sgodd"][i % 15]
         man = names[(i // 5) % len(names)]
         opts = {}
         for k, vals in OPTION_POOL:
